@@ -27,7 +27,9 @@ def classify_read(node, setnames, capnames, nodenames):
 
 
 def sanitised_levels(fn):
-    """levels re-assigned through _relativize_and_fit_to_screen in `fn`"""
+    """levels re-assigned through _relativize_and_fit_to_screen in `fn`:
+    level -> (line, value is the level's own layout, guards the statement sits under)"""
+    from ..core.astutil import enclosing_conjuncts
     out = {}
     for n in walk_no_nested(fn.node):
         if isinstance(n, ast.Assign) and len(n.targets) == 1 and "_relativize_and_fit_to_screen(" in src(n.value):
@@ -38,13 +40,20 @@ def sanitised_levels(fn):
                 same = arg is not None and arg.group(1).replace(" ", "") == src(t).replace(" ", "")
                 lvl = "set" if "caption_set" in base or base in ("captions", "captions_set") else \
                     "caption" if "caption" in base else "node" if "node" in base else f"?{base}"
-                out[lvl] = (n.lineno, same)
-        if isinstance(n, ast.Call) and isinstance(n.func, ast.Attribute) and n.func.attr == "set_layout_info" \
-                and any("_relativize_and_fit_to_screen(" in src(a) for a in n.args):
-            inner = [a for a in n.args if "_relativize_and_fit_to_screen(" in src(a)][0]
+                out[lvl] = (n.lineno, same, enclosing_conjuncts(fn, n) or [])
+        if isinstance(n, ast.Expr) and isinstance(n.value, ast.Call) and isinstance(n.value.func, ast.Attribute) \
+                and n.value.func.attr == "set_layout_info" \
+                and any("_relativize_and_fit_to_screen(" in src(a) for a in n.value.args):
+            inner = [a for a in n.value.args if "_relativize_and_fit_to_screen(" in src(a)][0]
             same = "get_layout_info(" in src(inner)
-            out["language"] = (n.lineno, same)
+            out["language"] = (n.lineno, same, enclosing_conjuncts(fn, n) or [])
     return out
+
+
+def _foreign_guards(guards, lvl):
+    """conditions a sanitising statement sits under, other than 'this level has a layout':
+    under any other condition some layouts of that level are written unsanitised"""
+    return [g for g in guards if "layout_info" not in g]
 
 
 def run(ctx, report):
@@ -75,10 +84,11 @@ def run(ctx, report):
         raise AnalysisError("DFXPWriter.write: creation of the region creator not found")
     for lvl in LEVELS:
         hit = san.get(lvl)
-        ok = hit is not None and hit[1] and hit[0] < rc_line
+        ok = hit is not None and hit[1] and hit[0] < rc_line and not _foreign_guards(hit[2], lvl)
         report.check(ok, "R-LEVEL-COVERAGE", wr, f"level:{lvl}",
                      {"consumed_at": consumed[lvl][:3],
-                      "sanitised": None if hit is None else {"line": hit[0], "reassigns_same_slot": hit[1]},
+                      "sanitised": None if hit is None else {"line": hit[0], "reassigns_same_slot": hit[1],
+                                                             "only_under": hit[2]},
                       "regions_collected_at_line": rc_line,
                       "why": None if ok else f"the {lvl}-level layout reaches the region table without passing "
                                              "_relativize_and_fit_to_screen"}, "4")
@@ -102,9 +112,11 @@ def run(ctx, report):
         raise AnalysisError("SAMIWriter.write: stylesheet creation not found")
     for lvl in sorted(cons):
         hit = san.get(lvl)
-        ok = hit is not None and hit[1] and hit[0] < style_line
+        ok = hit is not None and hit[1] and hit[0] < style_line and not _foreign_guards(hit[2], lvl)
         report.check(ok, "R-LEVEL-COVERAGE", sw, f"level:{lvl}",
-                     {"consumed_at": cons[lvl][:3], "sanitised": hit}, "4")
+                     {"consumed_at": cons[lvl][:3], "sanitised": hit,
+                      "why": None if ok else f"the {lvl}-level layout of some captions reaches the output without "
+                                             "passing _relativize_and_fit_to_screen"}, "4")
     report.info("R-LEVEL-COVERAGE", sw, "sibling writers side by side",
                 {"SAMIWriter sanitises": sorted(san), "DFXPWriter sanitises": sorted(sanitised_levels(wr))}, "4")
     # --- WebVTT ----------------------------------------------------------------
